@@ -38,6 +38,8 @@ def in_tree(root, f):
 
 def replacement_for(rng, f):
     a = f.a
+    if isinstance(a, ast.Name) and f.parent is not None and isinstance(f.parent.a, ast.NamedExpr) and f.pfield.name == 'target':
+        return rng.choice(['renamed', 'w2'])
     if isinstance(a, ast.stmt):
         return rng.choice(STMTS)
     if isinstance(a, ast.expr) and not isinstance(a, (ast.Starred, ast.Slice)) and isinstance(getattr(a, 'ctx', ast.Load()), ast.Load):
@@ -156,7 +158,8 @@ def walk_script(ctx, rng, src, kw, allow_mut=True, max_steps=400, snapshot=None)
 
 def stage_oracle(ctx: Ctx, progs):
     rng = ctx.rng
-    small = [p for p in progs if len(p) < 900]
+    from props.C16 import SCOPE_PROGS
+    small = [p for p in progs if len(p) < 900] + SCOPE_PROGS + ['r = [(w := i) for i in it if (z := i) > lim]\nq = {(k := v): k for v in vs}\n'] * 3
     for it in range(ctx.scale(500, 9000)):
         src = rng.choice(small)
         kw = {}
@@ -211,6 +214,71 @@ def stage_oracle(ctx: Ctx, progs):
         d = reparse_diffs(root)
         if d:
             ctx.violation('search-final-c01', 'tree after search() with mutations does not re-parse to itself', {'src': src, 'diffs': d, 'src_after': root.src})
+
+
+def stage_scope_targets(ctx: Ctx):
+    """scope=True walks: at the nodes the scope walk handles specially (first iterator of a comprehension, walrus targets) every
+    kind of mutation, deterministically"""
+    import fst
+    from props.C16 import SCOPE_PROGS
+    srcs = SCOPE_PROGS + ['r = [(w := i) for i in it(a) if (z := i) > lim]\nq = {(k := v): k for v in vs}\n', 'def f():\n    return [[(t := x) for x in row(r)] for row in (s := grid)]\n',
+                          'g = ((u := e) for e in src() if u)\n']
+    acts = ['replace_self', 'replace_parent', 'replace_stmt', 'remove_stmt', 'send_false', 'send_true']
+    for src in srcs:
+        probe = fst.FST(src, 'exec')
+        specials = []
+        for n in ast.walk(probe.a):
+            if isinstance(n, (ast.ListComp, ast.SetComp, ast.DictComp, ast.GeneratorExp)):
+                specials.append(('iter', probe.child_path(n.generators[0].iter.f)))
+            if isinstance(n, ast.NamedExpr):
+                specials.append(('walrus', probe.child_path(n.target.f)))
+        for kind, path in specials:
+            for act in acts:
+                for kw in ({'scope': True}, {'scope': True, 'all': ast.Name}, {'scope': True, 'all': True}, {'scope': True, 'back': True}):
+                    root = fst.FST(src, 'exec')
+                    tgt = root.child_from_path(path)
+                    seen = []
+                    rec = {'src': src, 'special': kind, 'target': repr(tgt), 'action': act, 'walk_kwargs': {k: repr(v) for k, v in kw.items()}}
+                    ctx.tick(('scope-target', src, kind, str(path), act, repr(kw)), 'walk:scope-special:' + kind)
+                    try:
+                        gen = root.walk(**kw)
+                        steps = 0
+                        for g in gen:
+                            steps += 1
+                            if steps > 500:
+                                ctx.violation(f'walk-does-not-end|scope|{kind}|{act}', 'the walk did not end', rec)
+                                break
+                            if g is None or g.a is None or not in_tree(root, g):
+                                ctx.violation(f'yield-detached|scope|{kind}|{act}', 'the scope walk yielded something that is not a node of the tree', {**rec, 'yielded': repr(g)})
+                                break
+                            if any(g is x for x in seen):
+                                ctx.violation(f'yield-twice|scope|{kind}|{act}', 'the scope walk yielded the same node twice', {**rec, 'yielded': repr(g)})
+                                break
+                            seen.append(g)
+                            if g is tgt:
+                                try:
+                                    if act == 'replace_self':
+                                        g.replace('renamed' if kind == 'walrus' else 'other(src2)')
+                                    elif act == 'replace_parent':
+                                        g.parent.replace('pp' if isinstance(g.parent.a, ast.expr) and not isinstance(g.parent.a, ast.Starred) else g.parent.src)
+                                    elif act == 'replace_stmt':
+                                        g.parent_stmt().replace('new = 1')
+                                    elif act == 'remove_stmt':
+                                        st = g.parent_stmt()
+                                        if len(getattr(st.parent.a, st.pfield.name)) > 1:
+                                            st.remove()
+                                    elif act == 'send_false':
+                                        gen.send(False)
+                                    elif act == 'send_true':
+                                        gen.send(True)
+                                except (ValueError, fst.NodeError, SyntaxError):
+                                    pass
+                    except Exception as e:
+                        ctx.violation(f'walk-raise|{type(e).__name__}|scope|{kind}|{act}', 'the scope walk raised while a specially handled node was modified', {**rec, 'error': repr(e)[:300]})
+                        continue
+                    d = reparse_diffs(root)
+                    if d:
+                        ctx.violation(f'final-c01|scope|{kind}|{act}', 'tree after the scope walk with mutations does not re-parse to itself', {**rec, 'diffs': d, 'after': root.src})
 
 
 # ---- correspondence: the on='enter' loop vs models/WalkMut.v on the observed heaps ------------------------------------
@@ -347,6 +415,7 @@ def run(ctx: Ctx):
         ctx.build_props()
     progs = corpus(ctx.rng, gen=ctx.scale(20, 120))
     run_guarded(ctx, stage_oracle, progs)
+    run_guarded(ctx, stage_scope_targets)
     run_guarded(ctx, stage_corr, progs)
 
 
